@@ -1095,20 +1095,55 @@ func runC01R11(c *eng.Ctx, r *eng.RuleCtx) {
 	for _, l := range litsPassedTo(f, info, doWithLock) {
 		lit = l
 	}
-	if lit == nil {
+	// the critical section: the literal handed to DoWithLock, or - when the loop was moved onto the set - a method of
+	// TaskQueueSet that the reference tree does not have, called from the handler, whose AddLast call runs with the
+	// set's mutex held (lock-set analysis of that method)
+	var critBody *ast.BlockStmt
+	var lg *eng.Graph
+	critPos := f.Decl.Pos()
+	if lit != nil {
+		critBody, lg, critPos = lit.Lit.Body, p.GraphOfLit(lit), lit.Lit.Pos()
+	} else if setT := p.Named(pkgQueue, "TaskQueueSet"); setT != nil {
+		setMu := p.Field(pkgQueue, "TaskQueueSet", "m")
+		for _, s := range p.AllSites() {
+			if s.In != f {
+				continue
+			}
+			fn, isF := s.Callee.(*types.Func)
+			if !isF || eng.RecvNamed(fn) == nil || eng.RecvNamed(fn).Obj() != setT.Obj() {
+				continue
+			}
+			mf := p.FuncOf(fn)
+			if mf == nil || mf.Decl.Body == nil || (p.Baseline != nil && p.Baseline[mf.Key]) {
+				continue
+			}
+			minfo := mf.Pkg.TypesInfo
+			for _, cl := range callsIn(minfo, mf.Decl.Body, func(o types.Object, _ *ast.CallExpr) bool { return o == types.Object(addLast) }) {
+				held := false
+				for _, m := range p.Locks().HeldMutexes(mf, nil, cl) {
+					if setMu != nil && m == setMu {
+						held = true
+					}
+				}
+				if held {
+					critBody, lg, critPos, info = mf.Decl.Body, p.GraphOf(mf), mf.Decl.Pos(), minfo
+				}
+			}
+		}
+	}
+	if critBody == nil {
 		r.Bad(f.Key+" append-under-lock", f.Decl.Pos(), "tasks are not appended inside TaskQueueSet.DoWithLock")
 		return
 	}
-	lg := p.GraphOfLit(lit)
-	calls := callsIn(info, lit.Lit.Body, func(o types.Object, _ *ast.CallExpr) bool {
+	calls := callsIn(info, critBody, func(o types.Object, _ *ast.CallExpr) bool {
 		return o != nil && (nameOf(o) == "AddLast" || nameOf(o) == "AddFirst" || nameOf(o) == "AddAfter" || nameOf(o) == "AddBefore")
 	})
 	if len(calls) != 1 || eng.CalleeOf(info, calls[0]) != addLast {
-		r.Bad(f.Key+" appends-with-AddLast", lit.Lit.Pos(), "tasks created for an event are not appended with exactly one (*TaskQueue).AddLast")
+		r.Bad(f.Key+" appends-with-AddLast", critPos, "tasks created for an event are not appended with exactly one (*TaskQueue).AddLast")
 		return
 	}
 	call := calls[0]
-	el := elemLoopAt(info, lit.Lit.Body, call.Pos())
+	el := elemLoopAt(info, critBody, call.Pos())
 	okLoop := el != nil && !el.Desc && len(call.Args) == 1 && el.IsElem(call.Args[0]) && loopNoEarlyExit(lg, el.Stmt)
 	r.Check(okLoop, f.Key+" ascending-append", call.Pos(), "AddLast(task) in an ascending range over the tasks of the event", "tasks of one event are not appended in ascending order with AddLast(element)")
 	// the queue is Queues[task.GetQueueName()]
@@ -1117,9 +1152,9 @@ func runC01R11(c *eng.Ctx, r *eng.RuleCtx) {
 		s, _ := ast.Unparen(call.Fun).(*ast.SelectorExpr)
 		if s != nil {
 			if qv, ok := eng.SelObj(info, s.X).(*types.Var); ok {
-				for _, e := range eng.AssignedExprs(info, lit.Lit.Body, qv) {
+				for _, e := range eng.AssignedExprs(info, critBody, qv) {
 					if ix, ok := ast.Unparen(e).(*ast.IndexExpr); ok && eng.IsField(info, ix.X, queues) {
-						if cl, ok := ast.Unparen(resolveLocal(info, lit.Lit.Body, ix.Index)).(*ast.CallExpr); ok && eng.CalleeOf(info, cl) == getQN {
+						if cl, ok := ast.Unparen(resolveLocal(info, critBody, ix.Index)).(*ast.CallExpr); ok && eng.CalleeOf(info, cl) == getQN {
 							if sel, ok := ast.Unparen(cl.Fun).(*ast.SelectorExpr); ok && el.IsElem(sel.X) {
 								okQueue = true
 							}
